@@ -88,7 +88,7 @@ def task_class():
     return BaseTask
 
 
-def build(spec, p, symbolic, hprio=None):
+def build(spec, p, symbolic, hprio=None, hprio_comp=None):
     """Build the pDESy object graph for `spec` under parameters `p`."""
     from pDESy.model.base_project import BaseProject
     from pDESy.model.base_workflow import BaseWorkflow
@@ -120,7 +120,7 @@ def build(spec, p, symbolic, hprio=None):
     M.comps = []
     for ci, cs in enumerate(spec.get("comps", [])):
         M.comps.append(BaseComponent("CP%d" % ci, ID=oid("c", ci), space_size=val(cs.get("size", 1), p)))
-        M.comps[-1]._hprio = ci
+        M.comps[-1]._hprio = ci if hprio_comp is None else hprio_comp[ci]
     for ci, cs in enumerate(spec.get("comps", [])):
         for ch in cs.get("children", []):
             M.comps[ci].append_child_component(M.comps[ch])
@@ -193,11 +193,12 @@ def build(spec, p, symbolic, hprio=None):
                 workamount_skill_mean_map=skills,
                 workamount_skill_sd_map={},
                 facility_skill_map=fsk,
-                absence_time_list=vlist(wsp.get("abs", []), p),
                 main_workplace_id=oid("wp", wsp["mw"]) if wsp.get("mw") is not None else None,
                 quality_skill_mean_map={"T%s" % k: val(v, p) for k, v in wsp.get("qskills", {}).items()},
                 quality_skill_sd_map={},
             )
+            # assigned after construction (public attribute): the list reaches the library exactly as the model gives it
+            wk.absence_time_list = vlist(wsp.get("abs", []), p)
             wk._idx = wi
             ws.append(wk)
             M.workers.append(wk)
@@ -225,8 +226,8 @@ def build(spec, p, symbolic, hprio=None):
                 solo_working=bool(fsp.get("solo", False)),
                 workamount_skill_mean_map=skills,
                 workamount_skill_sd_map={},
-                absence_time_list=vlist(fsp.get("abs", []), p),
             )
+            fc.absence_time_list = vlist(fsp.get("abs", []), p)
             fc._idx = fi
             fs.append(fc)
             M.facs.append(fc)
